@@ -25,7 +25,7 @@ YIELD=""
 RACE=""
 case "$ID" in
   C05|C17|C18) YIELD="storage,storage/fsstore,storage/sharding,storage/memstore,linking,linking/cid" ;;
-  C20) YIELD="datamodel,node/basicnode,node/bindnode,node/gendemo,schema,traversal,traversal/selector,linking,linking/cid,multicodec,codec,codec/dagcbor,codec/dagjson,codec/cbor,codec/json,codec/raw,storage/memstore,storage/fsstore,storage,printer,node/mixins" ;;
+  C20) YIELD="datamodel,node/basicnode,node/bindnode,node/gendemo,schema,traversal,traversal/selector,linking,linking/cid,multicodec,codec,codec/dagcbor,codec/dagjson,codec/cbor,codec/json,codec/raw,storage/memstore,storage/fsstore,storage,printer,node/mixins,schema/dsl,schema/dmt,fluent/qp" ;;
 esac
 DETMAPS=""
 RGO="$GO"
@@ -38,7 +38,7 @@ if [ "$ID" = "C20" ]; then
   DETMAPS="$VERIF_DIR/.build/goroot-c20"
   RGO="env GOROOT=$DETMAPS GOTOOLCHAIN=local $DETMAPS/bin/go"
 fi
-COOP=".,datamodel,fluent,linking,linking/cid,linking/preload,multicodec,codec,codec/dagcbor,codec/dagjson,codec/cbor,codec/json,codec/raw,node/basicnode,node/bindnode,node/mixins,schema,schema/dmt,schema/dsl,storage,storage/fsstore,storage/memstore,storage/sharding,traversal,traversal/selector,traversal/selector/builder,traversal/patch,printer"
+COOP=".,datamodel,fluent,fluent/qp,linking,linking/cid,linking/preload,multicodec,codec,codec/dagcbor,codec/dagjson,codec/cbor,codec/json,codec/raw,node/basicnode,node/bindnode,node/mixins,schema,schema/dmt,schema/dsl,storage,storage/fsstore,storage/memstore,storage/sharding,traversal,traversal/selector,traversal/selector/builder,traversal/patch,printer"
 ./bin/instrument -repo "$REPO" -out "$B/overlay" -fs -coop "$COOP" ${YIELD:+-yield "$YIELD"} ${DETMAPS:+-detmaps "$DETMAPS"} >"$B/instrument.log" 2>&1 || { cat "$B/instrument.log" >&2; build_fail "overlay generation"; }
 MODFLAG=""
 if [ "$REPO" != "/repo" ]; then
